@@ -355,6 +355,8 @@ func TestC18(t *testing.T) {
 type c18Step struct {
 	Op  string        // set-read | set-write | set-both | idle | read | write | reset-read | reset-write | reset-both
 	How string        // past | future | zero (for set-*); zero | far (for reset-*)
+	// Quick (read / write steps): the call follows the previous step at once, without the clock moving in between
+	Quick bool
 	D   time.Duration // future offset / idle length
 }
 
@@ -387,6 +389,8 @@ func genC18DL(rt *rapid.T) c18DL {
 			s.D = rapid.SampledFrom([]time.Duration{time.Millisecond, 500 * time.Millisecond, 3 * time.Second}).Draw(rt, "d")
 		case strings.HasPrefix(s.Op, "reset"):
 			s.How = rapid.SampledFrom([]string{"zero", "far"}).Draw(rt, "resetHow")
+		case s.Op == "read" || s.Op == "write":
+			s.Quick = rapid.Bool().Draw(rt, "atOnce")
 		}
 		c.Steps = append(c.Steps, s)
 	}
@@ -434,6 +438,7 @@ func runC18DL(t fataler, c c18DL) (string, c18DLResult) {
 		}
 	}
 	sawExpiry, sawReset := false, false
+	pastR, pastW := false, false // the current read / write deadline was already in the past when it was set
 	seq := 0
 	for i, s := range c.Steps {
 		// Never act at the very instant a deadline timer fires: whether the call
@@ -468,20 +473,29 @@ func runC18DL(t fataler, c c18DL) (string, c18DLResult) {
 		switch s.Op {
 		case "set-read", "reset-read":
 			nc.SetReadDeadline(at(s.How, s.D))
-			rdl, rexp = model(s.How, s.D), false
+			rdl, rexp, pastR = model(s.How, s.D), false, s.How == "past"
 		case "set-write", "reset-write":
 			nc.SetWriteDeadline(at(s.How, s.D))
-			wdl, wexp = model(s.How, s.D), false
+			wdl, wexp, pastW = model(s.How, s.D), false, s.How == "past"
 		case "set-both", "reset-both":
 			nc.SetDeadline(at(s.How, s.D))
-			rdl, rexp = model(s.How, s.D), false
-			wdl, wexp = model(s.How, s.D), false
+			rdl, rexp, pastR = model(s.How, s.D), false, s.How == "past"
+			wdl, wexp, pastW = model(s.How, s.D), false, s.How == "past"
 		case "idle":
 			e.sleep(s.D)
 		case "read":
-			// a "past" deadline needs the clock to move for its timer to fire
-			e.sleep(time.Microsecond)
+			// A deadline that was ALREADY in the past when it was set (the SetReadDeadline(aLongTimeAgo) idiom) has
+			// passed while no call was active: the very next call fails with a deadline error, however soon it
+			// comes (defect D23: the library decided that on a timer goroutine, lost the race against the
+			// caller's next statement and killed the connection). A FUTURE deadline that expires at this very
+			// instant is a tie the scheduler decides; the clock moves on first.
+			if !(pastR && s.Quick) {
+				e.sleep(time.Microsecond)
+			}
 			tick()
+			if pastR {
+				rexp = true
+			}
 			seq++
 			pl := []byte(fmt.Sprintf("in-%d", seq))
 			p.send(ref.Frame{Fin: true, Opcode: ref.OpBinary, Payload: pl})
@@ -499,7 +513,7 @@ func runC18DL(t fataler, c c18DL) (string, c18DLResult) {
 				}
 				// the message is still there: read it after a reset
 				nc.SetReadDeadline(time.Time{})
-				rexp, rdl = false, time.Time{}
+				rexp, rdl, pastR = false, time.Time{}, false
 				sawReset = true
 				d := e.Call(func() { n, err = nc.Read(buf) })
 				if !within(d, 10*time.Second) || err != nil || !bytes.Equal(buf[:n], pl) {
@@ -511,8 +525,13 @@ func runC18DL(t fataler, c c18DL) (string, c18DLResult) {
 				}
 			}
 		case "write":
-			e.sleep(time.Microsecond)
+			if !(pastW && s.Quick) {
+				e.sleep(time.Microsecond)
+			}
 			tick()
+			if pastW {
+				wexp = true
+			}
 			seq++
 			pl := []byte(fmt.Sprintf("out-%d", seq))
 			var n int
@@ -527,7 +546,7 @@ func runC18DL(t fataler, c c18DL) (string, c18DLResult) {
 					return fmt.Sprintf("step %d: write deadline passed while idle, but Write returned %d, %v (want a deadline error)", i, n, err), res
 				}
 				nc.SetWriteDeadline(time.Time{})
-				wexp, wdl = false, time.Time{}
+				wexp, wdl, pastW = false, time.Time{}, false
 				sawReset = true
 				d := e.Call(func() { n, err = nc.Write(pl) })
 				if !within(d, 10*time.Second) || err != nil {
@@ -740,4 +759,116 @@ func TestC18Regress(t *testing.T) {
 		}
 	}
 	evid.For("C18").Case(true, "regress|D16", "regression-replay")
+}
+
+// TestC18ZeroRead: "for any ... read-buffer sizes" includes the empty one. io.Reader: a Read
+// into an empty buffer returns 0 and no error (or the stream's standing error) - it does not
+// consume, and above all it returns. Real clock, outside a bubble: the failure mode is a call
+// that spins without ever blocking (defect D24), which would freeze a bubble's fake clock.
+func TestC18ZeroRead(t *testing.T) {
+	rec := evid.For("C18")
+	for _, client := range []bool{false, true} {
+		for _, when := range []string{"before-any-message", "mid-message", "between-messages", "after-eof", "deadline-expired"} {
+			for _, nilBuf := range []bool{true, false} {
+				desc := fmt.Sprintf("zeroread|client=%v|%s|nil=%v", client, when, nilBuf)
+				msg := func() string {
+					e := newEnv(t)
+					defer e.Teardown()
+					lc, err := e.open(connSpec{Client: client})
+					if err != nil {
+						return "handshake: " + err.Error()
+					}
+					p := lc.Peer
+					p.onFrame = func(f ref.Frame) {
+						if f.Opcode == ref.OpClose {
+							p.send(ref.Frame{Fin: true, Opcode: ref.OpClose, Payload: f.Payload})
+						}
+					}
+					p.start(e)
+					nc := websocket.NetConn(context.Background(), lc.C, websocket.MessageBinary)
+					defer lc.C.CloseNow()
+					readN := func(n int) error {
+						b := make([]byte, n)
+						_, err := io.ReadFull(nc, b)
+						return err
+					}
+					wantErr := ""
+					switch when {
+					case "mid-message":
+						p.send(ref.Frame{Fin: true, Opcode: ref.OpBinary, Payload: []byte("hello")})
+						if err := readN(1); err != nil {
+							return "setup read: " + err.Error()
+						}
+					case "between-messages":
+						p.send(ref.Frame{Fin: true, Opcode: ref.OpBinary, Payload: []byte("hello")})
+						if err := readN(5); err != nil {
+							return "setup read: " + err.Error()
+						}
+					case "after-eof":
+						p.send(ref.Frame{Fin: true, Opcode: ref.OpClose, Payload: ref.ClosePayload(1000, "")})
+						if _, err := nc.Read(make([]byte, 8)); err != io.EOF {
+							return fmt.Sprintf("setup: Read after the peer's close returned %v", err)
+						}
+						wantErr = "EOF"
+					case "deadline-expired":
+						p.send(ref.Frame{Fin: true, Opcode: ref.OpBinary, Payload: []byte("hello")})
+						if err := readN(1); err != nil {
+							return "setup read: " + err.Error()
+						}
+						nc.SetReadDeadline(time.Now().Add(-time.Second))
+						time.Sleep(20 * time.Millisecond)
+						wantErr = "deadline"
+					}
+					var buf []byte
+					if !nilBuf {
+						buf = make([]byte, 16)[:0]
+					}
+					type res struct {
+						n   int
+						err error
+					}
+					ch := make(chan res, 1)
+					go func() {
+						n, err := nc.Read(buf)
+						ch <- res{n, err}
+					}()
+					select {
+					case r := <-ch:
+						if r.n != 0 {
+							return fmt.Sprintf("Read into an empty buffer returned n=%d", r.n)
+						}
+						switch wantErr {
+						case "":
+							if r.err != nil {
+								return fmt.Sprintf("Read into an empty buffer (%s) returned %v, want 0, nil", when, r.err)
+							}
+						case "EOF":
+							if r.err != io.EOF && r.err != nil {
+								return fmt.Sprintf("Read into an empty buffer after EOF returned %v", r.err)
+							}
+						case "deadline":
+							if r.err != nil && !isDeadlineErr(r.err) {
+								return fmt.Sprintf("Read into an empty buffer after the deadline returned %v", r.err)
+							}
+						}
+					case <-time.After(3 * time.Second):
+						lc.C.CloseNow() // lets the spinning call end
+						return fmt.Sprintf("Read into an empty buffer (%s) did not return within 3 s", when)
+					}
+					// and it consumed nothing: the rest of the stream is still there
+					if when == "mid-message" {
+						b := make([]byte, 4)
+						if _, err := io.ReadFull(nc, b); err != nil || string(b) != "ello" {
+							return fmt.Sprintf("after the empty Read the rest of the message reads as %q, %v (want \"ello\")", b, err)
+						}
+					}
+					return ""
+				}()
+				rec.Case(true, desc, "read-into-an-empty-buffer")
+				if msg != "" {
+					failCase(t, "C18", desc, "%s", msg)
+				}
+			}
+		}
+	}
 }
